@@ -661,6 +661,16 @@ next:
 			for _, queries := range p.enclosingAtMedia {
 				if css_ast.MediaQueriesEqual(r.Queries, queries, nil) {
 					mangledRules = append(mangledRules, r.Rules...)
+
+					// The unwrapped rules now sit between the previous rule and the
+					// next one, so the next rule must not be merged into the rule
+					// that came before the unwrapped ones
+					prevNonComment = nil
+					if last := r.Rules[len(r.Rules)-1].Data; last != nil {
+						if _, isComment := last.(*css_ast.RComment); !isComment {
+							prevNonComment = last
+						}
+					}
 					continue next
 				}
 			}
